@@ -766,7 +766,7 @@ def run(run: Run) -> int:
     P.drop_private(priv)
     check_cm_entries(run, exp, src, cromermann)
     run.exhaustive = True
-    run_generated(run, 50 if run.tier == "quick" else 2500, symbols, mods)
+    run_generated(run, 50 if run.tier == "quick" else 6000, symbols, mods)
     return run.finish(RULE, assumptions=[
         "floats compared at 1e-9 (model), exactly for table entries and at 1e-11 against 50-digit Decimal for the "
         "form factors (oracle)",
@@ -797,6 +797,9 @@ def replay(data) -> int:
             o = obs_element(tbl[z])
             print(" real code :", {k: (x if k != "mag" else "…") for k, x in o.items()})
             print(" oracle on the real code:", oracle_element(exp, z, o))
+            rep = run_driver("loader", anc_lines(src) + ["cov_load", "cr_load", "lines_load", "mag_load", "cm_load"]
+                             + model_element_queries(z, o))
+            print(" model     :", [r[:60] for r in rep[5:14]])
             if "q" in inp:
                 vals = obs_f0(tbl, cromermann).get((z, inp["q"]))
                 print(" f0 real code:", vals, " oracle:", oracle_f0(exp, z, inp["q"], vals))
